@@ -6,7 +6,9 @@
 set -u
 export GOFLAGS=-mod=mod GOPROXY=off GOSUMDB=off GOTOOLCHAIN=local
 P=$1; K=$2; PKG=$3; RE=${4:-.}
-SRC=/tmp/wt_$P/_seeded/$K
+# SRCROOT (default /tmp/wt_<PROP>) and DSTK (default <k>) allow importing later rounds under new numbers
+SRC=${SRCROOT:-/tmp/wt_$P}/_seeded/$K
+K=${DSTK:-$K}
 DST=/verif/seeded/$P-$K
 mkdir -p $DST
 [ -n "${KEEP_PATCH:-}" ] || cp $SRC/patch.diff $DST/ 2>/dev/null; cp $SRC/notes.md $DST/ 2>/dev/null
